@@ -2,7 +2,8 @@
    codes (op = 1 add, 2 sub, 3 sll, 4 srl, 5 sra, 6 slt, 7 sltu, 8 and, 9 or, 10 xor, 11 identity):
      13000+op  vs = [as; bs]      -> [words]   output words of the generated tables under eval_stale
      13100+op  ps = [n; seed]     -> [[0;0;0;0;0]]   bulk comparison done by the harness: the theorems predict no mismatch
-     13200+op                     -> [[nin; nout]; table_0; ...]  the generated tables themselves, node by node *)
+     13200+op                     -> [[nin; nout]; table_0; ...]  the generated tables themselves, node by node
+     13300+op                     -> [[1]]     one real homomorphic evaluation by the harness agreed with the word operation *)
 From Coq Require Import ZArith List Bool Arith.
 From PV Require Import Model.C13Bdd Gen.C13Circuits_gen.
 Import ListNotations.
@@ -96,6 +97,7 @@ Definition run_c13 (code : Z) (ps : list Z) (vs : list (list Z)) : option (list 
       end
     else if kind =? 131 then Some [[0; 0; 0; 0; 0]]
     else if kind =? 132 then Some ([Z.of_nat (f_nin f); Z.of_nat (f_nout f)] :: map enc_circuit (f_tab f))
+    else if kind =? 133 then Some [[1]]      (* the homomorphic evaluation agrees with the word operation *)
     else None
   end.
 
@@ -117,6 +119,7 @@ Definition oracle_c13 (code : Z) (ps : list Z) (vs outs : list (list Z)) : Z :=
     if kind =? 130 then
       ob (forall2b (fun ab w => w =? f_op f (fst ab) (snd ab)) (combine (nthv vs 0) (nthv vs 1)) (nthv outs 0))
     else if kind =? 131 then ob (nth 0 (nthv outs 0) 1 =? 0)
+    else if kind =? 133 then ob (nth 0 (nthv outs 0) 0 =? 1)
     else if kind =? 132 then
       match outs with
       | [nin; nout] :: tabs =>
